@@ -32,6 +32,7 @@ M = [
  ("d9_reintroduced_elim", "src/pwl/impl_infeasible_elim.rs", "if self.tree.contains(node) && self.tree.num_children(node) > 1 {", "if self.tree.contains(node) {", ["C03", "C04"]),
  ("minilp_panic_fix_reverted", "src/linalg/polyhedron.rs", "        let result = match std::panic::catch_unwind(std::panic::AssertUnwindSafe(|| pb.solve())) {\n            Ok(result) => result,\n            Err(_) => return PolytopeStatus::Error(\"minilp panicked while solving\".to_owned()),\n        };", "        let result = pb.solve();", ["C10"]),
  ("mirror_points_contains_fix_reverted", "src/pwl/impl_infeasible_elim.rs", ".filter(|(point, dist)| dist.iter().all(|val| *val >= 0.) && poly.contains(point))", ".filter(|(_, dist)| dist.iter().all(|val| *val >= 0.))", ["C04", "C05"]),
+ ("row_scaling_fix_reverted", "src/linalg/polyhedron.rs", "2.0_f64.powi(-(max_coeff.log2().floor() as i32))", "1.0", ["C10", "C03"]),
  # C04
  ("remove_child_keeps_isleaf", "src/tree/graph.rs", "        if self.num_children(parent) == 0 {\n            self.arena[parent].isleaf = true;\n        }", "", ["C12", "C04"]),
  ("compose_forward_ignores_skipped", "src/pwl/impl_composition.rs", "if created_children == 1 && created_children + skipped_children == K {", "if created_children == 1 {", ["C03", "C04", "C07"]),
